@@ -3,7 +3,8 @@
    Gen_C02 (src_guards: the guard lists of Readout.__init__, the two Readout setters and
    ReadoutProperties.__init__;  src_empty: the table of Detector.empty(reset) AND what the empty() of every
    container does to each piece of state the container holds -- Charge: the 2-D array and the particle
-   dataframe) is regenerated from the source on every run, and the theorems below are re-checked against it; so is src_set_readout (does
+   dataframe -- and how run_pipeline's loop and its deprecated copy use Detector.empty: the full reset before the
+   loop, the per-step reset flag) is regenerated from the source on every run, and the theorems below are re-checked against it; so is src_set_readout (does
    Detector.set_readout always install a NEW ReadoutProperties built from the readout it is given?).
 
    Reading guide.  [scenario A zero G E form times start nd ops prog d0] = construct a Readout, apply the
@@ -111,6 +112,27 @@ Theorem C02_detector_empty :
        pixel := if reset then Some zero else pixel d; signal := None; image := None |}.
 Proof. intros A zero. apply det_empty_ok. vm_compute. reflexivity. Qed.
 Print Assumptions C02_detector_empty.
+
+(* why the shape of the run loop is part of the regenerated table: with the per-step flag inverted
+   (`detector.empty(detector.non_destructive_readout)`) a destructive run keeps the pixel content from step to
+   step; without the full reset before the loop a non-destructive run starts from whatever pixel content an
+   earlier run left in the detector *)
+Example C02_ex_loop_shape_matters :
+  let E p i := {| e_always := e_always src_empty; e_if_reset := e_if_reset src_empty; e_scene := e_scene src_empty;
+                  e_photon := e_photon src_empty; e_charge := e_charge src_empty; e_pixel := e_pixel src_empty;
+                  e_signal := e_signal src_empty; e_image := e_image src_empty;
+                  e_read_stores := e_read_stores src_empty; e_init_reset := i; e_loop_reset := p;
+                  e_old_loop_same := true |} in
+  let pixels E nd := match scenario Z 0%Z src_guards E FList (R1 [TQ 1; TQ 2]) (TQ 0) nd [] (prog_of [[WAdd Pixel 3]; []]%Z)
+                                    (mkdet None None None None (Some 9%Z) None None) with
+                     | Ran os => map (fun o => pixel (o_begin o)) os | Rejected _ => [] end in
+  pixels (E LIfDestructive true) false = [Some 0; Some 0]%Z
+  /\ pixels (E LIfNonDestructive true) false = [Some 0; Some 3]%Z
+  /\ pixels (E LIfDestructive true) true = [Some 0; Some 3]%Z
+  /\ pixels (E LIfDestructive false) true = [Some 9; Some 12]%Z
+  /\ empty_table_ok (E LIfDestructive true) = true
+  /\ empty_table_ok (E LIfNonDestructive true) = false /\ empty_table_ok (E LIfDestructive false) = false.
+Proof. vm_compute. repeat split. Qed.
 
 (* why the check of the container programs is needed: a Charge.empty() that re-initialises the 2-D array only
    when there was no particle (`if frame holds: reset frame  elif array holds: reset array`) passes on charge
